@@ -85,7 +85,8 @@ def _hostile_name(rng, sbx_root_placeholder="@SBX@") -> tuple[str, list[str]]:
         return rng.choice(["x" * 250 + ext, "d/" * 60 + "deep" + ext, "y" * 3000 + ext, ("z" * 200 + "/") * 18 + "f" + ext]), ["long"]
     if r < 0.56:
         return rng.choice([".hidden" + ext, "d/.hidden" + ext, "__MACOSX/res" + ext, "__MACOSX/._res" + ext, ".DS_Store", "./.hidden" + ext, "./._res" + ext,
-                           "./d/.env" + ext, "././.x" + ext]), ["hidden"]
+                           "./d/.env" + ext, "././.x" + ext,
+                           "./__MACOSX/res" + ext, "d/__MACOSX/res" + ext, "./d/__MACOSX/._res" + ext]), ["hidden"]
     if r < 0.61:
         return rng.choice(["inner.zip", "d/inner.tar.gz", "x.7z", "y.tgz", "z.TAR", "n.gz", "d/n.bz2", "n.xz", "n.tar.xz", "N.TBZ2", "inner.zip ", "docs/inner.zip\t", "inner.tgz  ", " lead.7z",
                            "n.taz", "d/n.tz", "N.TAZ", "n.tbz", "n.tb2"]), ["nested"]
@@ -366,8 +367,8 @@ def _check_history(run, sbx, fmt, classes, mode, k, results, exc, events, fds0, 
             reason = None
             if base.startswith("."):
                 reason = "hidden"
-            elif nm.startswith("__MACOSX/"):
-                reason = "macos_resource_fork"
+            elif "__MACOSX" in nm.split("/")[:-1]:
+                reason = "macos_resource_fork"  # the resource-fork directory, wherever in the member path it sits ('./__MACOSX/x', 'd/__MACOSX/x')
             elif "nested" in m.get("classes", []) or base.strip().lower().endswith((".zip", ".tar", ".tar.gz", ".tgz", ".tar.bz2", ".tbz2", ".tar.xz", ".txz", ".7z", ".gz", ".bz2", ".xz")):
                 # the member IS an archive (the generator packed one under an archive name, whatever spelling of the suffix):
                 # its token can only reach a result by unpacking it
